@@ -92,5 +92,33 @@ PROPS["C05"] = dict(
                 "values and larger shapes sampled. The numeric correctness of the point function is C06-C09's."),
     level_note="The position-wise law compares two contexts of the same conversion; trusts Alloc/Slice/AppendSample/Sample to build fixtures.",
 )
+PROPS["C13"] = dict(
+    pkg="c13", idx=13,
+    rule=("Cases = element type from the 13 built-in and 13 named types x (C in 1..64, 0<=L<=K up to 4096, size-biased) x a second allocation "
+          "(same or different shape). Oracle: Channels/Length/Capacity/Len=C*L/Cap=C*K, BitDepth = 8*sizeof(T) computed by the harness, every "
+          "sample over Slice(0,K) zero, and independence by stamping one allocation's whole capacity and re-reading the other, both ways. "
+          "Non-trivial: L<K (zero fill beyond the length observable), named type, or >=2 channels."),
+    quick=dict(rapid=dict(checks=20000, shards=2)),
+    thorough=dict(rapid=dict(checks=100000, shards=16), fuzz=dict(targets=["FuzzC13"], seconds=20)),
+    assumptions=COMMON_ASSUME,
+    technique="property-based testing (rapid) + bounded-exhaustive shape sweep with zero-fill and independence stamps",
+    level_text=("Exhaustive over 26 types x C<=8 (16) x all L<=K<=6 (9); larger shapes (C to 64, K to 4096) sampled by rapid."),
+    level_note="Trusts Slice and Sample/SetSample to observe the capacity region; bit width of int/uint/uintptr is this platform's (64).",
+)
+
+PROPS["C14"] = dict(
+    pkg="c14", idx=14,
+    rule=("Cases = element type x C in 1..8 x frame-aligned parent window [a,b) of a sentinel-filled root x channel c x indices (all below the "
+          "per-channel length for small windows, a drawn subset for large). Oracle: view.Sample(i) = root position C*(a+i)+c computed by the harness; "
+          "view.SetSample(i,v) changes exactly that root position (whole-storage diff) and reads back v through the view; Channels()=1, "
+          "Length/Capacity = parent's; BufferIndex(c,i) = C*i+c. Non-trivial: C>=2 and (c != 1 or i >= 1) - what the suite's self-cancelling "
+          "comparison on channel 1 cannot see - or a parent starting at a later frame."),
+    quick=dict(rapid=dict(checks=20000, shards=2)),
+    thorough=dict(rapid=dict(checks=100000, shards=16), fuzz=dict(targets=["FuzzC14"], seconds=20)),
+    assumptions=COMMON_ASSUME,
+    technique="property-based testing (rapid) + exhaustive sweep over channels/indices against harness-computed interleaved positions with whole-storage diff",
+    level_text=("Exhaustive over 13 types x C 1..8 x roots <=6 (9) frames x all windows x every channel x every index; larger parents sampled."),
+    level_note="BufferIndex is called with the view's own channel as first argument (as the repository's test does). Trusts Alloc/Slice and root Sample/SetSample.",
+)
 
 NOT_APPLICABLE = {}
